@@ -1122,4 +1122,38 @@ theorem c16_nodup_stubArgs (dflt : Bool) (c : ClassInfo) : ((stubArgs dflt c).ma
     List.Sublist.map _ List.filter_sublist
   exact hsub.nodup (nodupN_allFields c)
 
+/-! ### `get_type_info` renders well-formed annotations -/
+
+mutual
+theorem c16_typeInfo_wf : (t : FTy) → FTy.wf t = true → (typeInfo t).wf = true
+  | .leaf a, h => by simpa [FTy.wf, typeInfo] using h
+  | .opt x, h => by
+    simp only [FTy.wf] at h
+    simp only [typeInfo, Ann.wf, Ann.wfL, c16_typeInfo_wf x h, Bool.and_true, List.isEmpty_cons, Bool.not_false]
+    decide
+  | .union xs, h => by
+    simp only [FTy.wf, Bool.and_eq_true] at h
+    have hl := c16_typeInfoL_wf xs h.2
+    have hne : (typeInfoL xs).isEmpty = false := by
+      cases xs with
+      | nil => simp at h
+      | cons x rest => simp [typeInfoL]
+    simp only [typeInfo, Ann.wf, hl, hne, Bool.and_true, Bool.not_false]
+    decide
+  | .map xs, h => by
+    simp only [FTy.wf, Bool.and_eq_true] at h
+    have hl := c16_typeInfoL_wf xs h.2
+    have hne : (typeInfoL xs).isEmpty = false := by
+      cases xs with
+      | nil => simp at h
+      | cons x rest => simp [typeInfoL]
+    simp only [typeInfo, Ann.wf, hl, hne, Bool.and_true, Bool.not_false]
+    decide
+theorem c16_typeInfoL_wf : (ts : List FTy) → FTy.wfL ts = true → Ann.wfL (typeInfoL ts) = true
+  | [], _ => rfl
+  | x :: rest, h => by
+    simp only [FTy.wfL, Bool.and_eq_true] at h
+    simp only [typeInfoL, Ann.wfL, c16_typeInfo_wf x h.1, c16_typeInfoL_wf rest h.2, Bool.and_self]
+end
+
 end Typedpy.StubText
